@@ -38,7 +38,8 @@ SmallMSPs == {Strip(m) : m \in {Vand(<<1, 2, 3>>, 2), Vand(<<1, 2, 3>>, 3), Cnf3
 \* every programme realises its policy (rank definition against the policy semantics), checked when the model is loaded
 ASSUME ProgramsSound == \A m \in AllPrograms :
   /\ WellFormed(m.M) /\ Len(m.lab) = NRows(m.M) /\ Holders(m.lab) = PolicyHolders(m.pol)
-  /\ \A S \in SUBSET Holders(m.lab) : S # {} => (SpansByRank(m.M, m.lab, S) <=> Qualified(m.pol, S))
+  /\ \A S \in SUBSET Holders(m.lab) : S # {} => /\ (SpansByRank(m.M, m.lab, S) <=> Qualified(m.pol, S))
+                                                   /\ ((Solutions(m.M, m.lab, S) # {}) <=> Qualified(m.pol, S))
 ASSUME MultiRowHolder == \E m \in AllPrograms : \E h \in Holders(m.lab) : Len(RowsOf(m.lab, h)) > 1
 
 \* x-coordinate tables (symmetric, otherwise injective)
